@@ -1,11 +1,506 @@
-import VncModel.Translate.Model
-/-! placeholder while the tie is brought up -/
+import VncModel.Translate.Lemmas
+/-!
+# C10 — Pixel-format translation follows the RFB colour-scaling rule for all formats
+
+Property theorems only (helper lemmas: `VncModel/Translate/Lemmas.lean`).  The model
+(`VncModel/Translate/Model.lean`) mirrors translate.c and its templates — scaling expression, table
+initialisation for both strategies and for colour-mapped servers, byte swapping, the choice logic
+of `rfbSetTranslateFunction`, the pointer walk of the translate functions — and is tied to the
+code on every run by the correspondence run `harness/c10.c` ⇄ `Driver/C10.lean` (byte-exact) and by
+the regenerated constants `VncModel/Gen/C10.lean` (`BGR233Format`, message constants, byte order).
+
+Quantifiers: ALL pairs of well-formed formats (`WF`: maxima `2^k−1` with `k ≥ 1`, fields inside the
+pixel and pairwise disjoint — any bits-per-pixel, any shifts, any byte orders), ALL pixel values,
+ALL memories, strides, widths and heights, both machine byte orders.
+
+What each theorem means for the property
+* `scale_rounds_to_nearest`, `scale_nearest_unique`: the C expression is THE nearest integer.
+* `pixel_components`: for both table strategies the stored pixel, read in the client's byte
+  order, is exactly the three rescaled components at the client's shifts, nothing else set.
+* `single_eq_rgb`: both strategies give the same pixel.
+* `identical_formats_choose_none`, `none_copies_verbatim`: identical formats → verbatim copy.
+* `translated_area_rule`: the whole property for a `w×h` area in one statement.
+* `area_exact`, `area_length`, `area_reads_only_area`, `area_reads_in_bounds`: a `w×h` area reads
+  exactly the `w*h` source pixels at the row stride and writes exactly `w*h` consecutive pixels.
+* `cm_pixel_components`, `cmScale_msb`: colour-mapped servers — the table holds the most
+  significant bits of the colour-map entries at the client's shifts.
+* `colourmap_client_gets_bgr233`, `bgr233_message_rule`: colour-map clients are treated as BGR233
+  and are sent the colour map that expands each BGR233 component to 16 bits.
+* `strategy_choice`, `reject_iff`, `single_index_in_table`, `rgb_index_in_table`,
+  `single_no_int_overflow`, `rgb_fits_uint32`: the choice logic, and the facts that make the
+  `Nat` model adequate for the C arithmetic and every table index in range.
+
+Hypotheses that are guards the C code does not have (run on the real code in the "excluded
+points" stream of the check, see docs/C10.md): maxima ≠ 0 and shifts < 32 (both implied by `WF`
+with bpp ≤ 32).  Stated assumption: the server format's `bigEndian` flag equals the machine byte
+order (`hhost`), as `rfbGetScreen` sets it — the code reads the framebuffer with native loads.
+Nothing is `_partial`; not modelled (outside the property's quantifier): the RGB-table functions
+for 24 bpp CLIENT formats.
+-/
 namespace VncModel.Props.C10
 open VncModel.Translate
-theorem scale_id (c m : Nat) (h : 0 < m) : scale c m m = c := by
+
+/-! ## (1) the scaling expression rounds to nearest -/
+
+/-- `o = (c*outMax + inMax/2)/inMax` satisfies `2·|o·inMax − c·outMax| ≤ inMax` (written as two
+inequalities over `Nat`) and `o ≤ outMax` for every `c ≤ inMax`.  `inMax ≠ 0` is the guard the C
+code lacks. -/
+theorem scale_rounds_to_nearest (c inMax outMax : Nat) (h : inMax ≠ 0) (hc : c ≤ inMax) :
+    2 * (scale c inMax outMax * inMax) ≤ 2 * (c * outMax) + inMax ∧
+    2 * (c * outMax) ≤ 2 * (scale c inMax outMax * inMax) + inMax ∧
+    scale c inMax outMax ≤ outMax :=
+  ⟨(scale_bounds (Nat.pos_of_ne_zero h)).1, (scale_bounds (Nat.pos_of_ne_zero h)).2,
+   scale_le (Nat.pos_of_ne_zero h) hc⟩
+
+/-- the same with an absolute value over `Int` -/
+theorem scale_rounds_to_nearest_abs (c inMax outMax : Nat) (h : inMax ≠ 0) :
+    2 * ((scale c inMax outMax * inMax : Nat) - (c * outMax : Nat) : Int).natAbs ≤ inMax := by
+  have := scale_bounds (c := c) (outMax := outMax) (Nat.pos_of_ne_zero h)
+  omega
+
+/-- for an odd `inMax` (every `2^k − 1` is odd) no other integer is as near: the code's value is
+the unique nearest integer — there are no ties to break -/
+theorem scale_nearest_unique (c inMax outMax o' : Nat) (hodd : inMax % 2 = 1)
+    (h1 : 2 * (o' * inMax) ≤ 2 * (c * outMax) + inMax)
+    (h2 : 2 * (c * outMax) ≤ 2 * (o' * inMax) + inMax) :
+    o' = scale c inMax outMax := by
+  have hpos : 0 < inMax := by omega
+  have ⟨b1, b2⟩ := scale_bounds (c := c) (outMax := outMax) hpos
+  rcases Nat.lt_trichotomy o' (scale c inMax outMax) with hlt | heq | hgt
+  · have : (o' + 1) * inMax ≤ scale c inMax outMax * inMax := Nat.mul_le_mul_right _ hlt
+    rw [Nat.add_mul, Nat.one_mul] at this
+    omega
+  · exact heq
+  · have : (scale c inMax outMax + 1) * inMax ≤ o' * inMax := Nat.mul_le_mul_right _ hgt
+    rw [Nat.add_mul, Nat.one_mul] at this
+    omega
+
+/-- rescaling to the same maximum is the identity -/
+theorem scale_identity (c m : Nat) (h : m ≠ 0) : scale c m m = c := by
   unfold scale
+  have hm : 0 < m := Nat.pos_of_ne_zero h
   have : c * m + m / 2 = m / 2 + c * m := Nat.add_comm ..
-  rw [this, Nat.add_mul_div_right _ _ h]
+  rw [this, Nat.add_mul_div_right _ _ hm]
   have : m / 2 / m = 0 := Nat.div_eq_of_lt (by omega)
   omega
+
+example : scale 21 31 255 = 173 ∧ 2 * (173 * 31 - 21 * 255) ≤ 31 := by decide
+
+/-! ## (2) translated pixels -/
+
+/-- **pixel_components**.  For well-formed server format `i` and client format `o` (8, 16 or 32
+bits per pixel; 24 behind the single table), either table strategy, every source pixel value `p`:
+the pixel the translate function stores (a typed store in machine order `be` of the table entry),
+read back in the CLIENT's byte order, is exactly the three source components rescaled with
+rounding to nearest, placed at the client's shifts (`specPixel`); each component can be read back
+at its shift and maximum; and no bit outside the three fields is set. -/
+theorem pixel_components {i o : PixelFormat} {ir ig ib kr kg kb : Nat} (be : Bool)
+    (wi : WF i ir ig ib) (wo : WF o kr kg kb) (s : Strategy)
+    (hs : (s = .singleTC ∧ (o.bpp = 8 ∨ o.bpp = 16 ∨ o.bpp = 24 ∨ o.bpp = 32)) ∨
+          (s = .rgb ∧ (o.bpp = 8 ∨ o.bpp = 16 ∨ o.bpp = 32)))
+    (hhost : i.bigEndian = be) (cm : ColourMap) (p : Nat) :
+    let v := decode o.bigEndian (encode be (o.bpp / 8) (lookup s i o cm p))
+    v = specPixel i o p ∧
+    comp v o.redShift o.redMax = scale (comp p i.redShift i.redMax) i.redMax o.redMax ∧
+    comp v o.greenShift o.greenMax = scale (comp p i.greenShift i.greenMax) i.greenMax o.greenMax ∧
+    comp v o.blueShift o.blueMax = scale (comp p i.blueShift i.blueMax) i.blueMax o.blueMax ∧
+    (∀ j, v.testBit j = true →
+      (o.redShift ≤ j ∧ j < o.redShift + kr) ∨ (o.greenShift ≤ j ∧ j < o.greenShift + kg) ∨
+      (o.blueShift ≤ j ∧ j < o.blueShift + kb)) := by
+  intro v
+  have hlt := specPixel_lt wi wo p
+  have hr := spec_red_lt wi wo p
+  have hg := spec_green_lt wi wo p
+  have hb := spec_blue_lt wi wo p
+  have hv : v = specPixel i o p := by
+    have hl : lookup s i o cm p =
+        if o.bigEndian != be then swapOut o.bpp (specPixel i o p) else specPixel i o p := by
+      rcases hs with ⟨rfl, _⟩ | ⟨rfl, h⟩
+      · rw [← hhost]; exact singleEntryTC_eq wi wo p
+      · rw [← hhost]; exact rgbLookup_eq wi wo (by omega) p
+    show decode o.bigEndian (encode be (o.bpp / 8) (lookup s i o cm p)) = specPixel i o p
+    rw [hl]
+    have hb' : o.bpp = 8 ∨ o.bpp = 16 ∨ o.bpp = 24 ∨ o.bpp = 32 := by
+      rcases hs with ⟨_, h⟩ | ⟨_, h⟩ <;> omega
+    rcases hb' with e | e | e | e <;> rw [e] at hlt ⊢
+    · exact decode_encode_swap be o.bigEndian 1 (by omega) _ hlt
+    · exact decode_encode_swap be o.bigEndian 2 (by omega) _ hlt
+    · exact decode_encode_swap be o.bigEndian 3 (by omega) _ hlt
+    · exact decode_encode_swap be o.bigEndian 4 (by omega) _ hlt
+  rw [hv]
+  exact ⟨rfl, place_red wo hr hg hb, place_green wo hr hg hb, place_blue wo hr hg hb,
+    fun j hj => place_bits hr hg hb hj⟩
+
+/-- **single_eq_rgb**: wherever both strategies are defined they produce the same pixel (the
+economic-translate switch never changes a pixel) -/
+theorem single_eq_rgb {i o : PixelFormat} {ir ig ib kr kg kb : Nat}
+    (wi : WF i ir ig ib) (wo : WF o kr kg kb) (hb : o.bpp ≤ 32) (cm : ColourMap) (p : Nat) :
+    lookup .singleTC i o cm p = lookup .rgb i o cm p := by
+  show singleEntryTC i o p = rgbLookup i o p
+  rw [singleEntryTC_eq wi wo p, rgbLookup_eq wi wo hb p]
+
+def rgb565 : PixelFormat := ⟨16, 16, false, true, 31, 63, 31, 11, 5, 0⟩
+def xbgr8888be : PixelFormat := ⟨32, 24, true, true, 255, 255, 255, 0, 8, 16⟩
+
+example : WF rgb565 5 6 5 := by constructor <;> decide
+example : WF xbgr8888be 8 8 8 := by constructor <;> decide
+/-- non-vacuity / sanity: white in RGB565 becomes white in big-endian xBGR8888, stored by a
+little-endian machine as the bytes 00 ff ff ff -/
+example : encode false 4 (lookup .singleTC rgb565 xbgr8888be ⟨false, 0, fun _ => 0⟩ 0xffff)
+    = [0, 255, 255, 255] := by decide
+example : lookup .rgb rgb565 xbgr8888be ⟨false, 0, fun _ => 0⟩ 0x1234 =
+    lookup .singleTC rgb565 xbgr8888be ⟨false, 0, fun _ => 0⟩ 0x1234 := by decide
+
+/-! ## (3) identical formats are copied verbatim -/
+
+/-- a valid true-colour client format identical to the server's selects `rfbTranslateNone` -/
+theorem identical_formats_choose_none (econ : Bool) (f : PixelFormat)
+    (hv : validBpp f.bpp = true) (htc : f.trueColour = true) (hfit : channelCheck f = true) :
+    setTranslate econ f f = ⟨.none, f, false⟩ := by
+  simp [setTranslate, hv, htc, hfit, pfEq]
+
+/-- well-formed formats always pass the channel validation (whether or not the tree has it) -/
+theorem wf_passes_channel_check {f : PixelFormat} {kr kg kb : Nat} (w : WF f kr kg kb) :
+    channelCheck f = true := by
+  have fits : ∀ k s, 1 ≤ k → s + k ≤ f.bpp → channelFits (2 ^ k - 1) s f.bpp = true := by
+    intro k s hk hs
+    have h1 : (2 ^ k - 1) <<< s < 2 ^ f.bpp := shl_lt (by have := Nat.two_pow_pos k; omega) hs
+    simp only [channelFits, Bool.and_eq_true, decide_eq_true_eq, beq_iff_eq]
+    exact ⟨by omega, by rw [Nat.shiftRight_eq_div_pow]; exact Nat.div_eq_of_lt h1⟩
+  simp only [channelCheck, w.rmax, w.gmax, w.bmax, fits _ _ w.kr_pos w.rfit,
+    fits _ _ w.kg_pos w.gfit, fits _ _ w.kb_pos w.bfit, Bool.and_self, Bool.or_true]
+
+/-- `PF_EQ` between true-colour formats is field-wise equality, the byte order being ignored for
+8 bits per pixel -/
+theorem pfEq_iff (x y : PixelFormat) (hx : x.trueColour = true) :
+    pfEq x y = true ↔
+      (x.bpp = y.bpp ∧ x.depth = y.depth ∧ (x.bigEndian = y.bigEndian ∨ x.bpp = 8) ∧
+       y.trueColour = true ∧ x.redMax = y.redMax ∧ x.greenMax = y.greenMax ∧
+       x.blueMax = y.blueMax ∧ x.redShift = y.redShift ∧ x.greenShift = y.greenShift ∧
+       x.blueShift = y.blueShift) := by
+  simp only [pfEq, hx, Bool.and_eq_true, Bool.or_eq_true, beq_iff_eq, Bool.not_true, Bool.false_or]
+  constructor
+  · rintro ⟨⟨⟨⟨a, b⟩, c⟩, d⟩, ⟨⟨⟨⟨⟨e, f⟩, g⟩, h⟩, i⟩, j⟩⟩
+    exact ⟨a, b, c, d.symm, e, f, g, h, i, j⟩
+  · rintro ⟨a, b, c, d, e, f, g, h, i, j⟩
+    exact ⟨⟨⟨⟨a, b⟩, c⟩, d.symm⟩, ⟨⟨⟨⟨⟨e, f⟩, g⟩, h⟩, i⟩, j⟩⟩
+
+/-- `rfbTranslateNone` copies, for each of the `h` rows, the `w * (bpp/8)` bytes found at the row
+stride — verbatim, no byte is altered -/
+theorem none_copies_verbatim (be : Bool) (i o : PixelFormat) (cm : ColourMap) (mem : Nat → Nat)
+    (stride w h : Nat) :
+    translateArea be .none i o cm mem stride w h =
+      (List.range h).flatMap fun r => memBytes mem (r * stride) (w * (o.bpp / 8)) := by
+  show copyRows mem (w * (o.bpp / 8)) stride 0 h = _
+  rw [copyRows_eq]
+  simp
+
+example : setTranslate true rgb565 rgb565 = ⟨.none, rgb565, false⟩ := by decide
+
+/-! ## (4) an area translation reads and writes exactly the area -/
+
+/-- **area_exact** (index theorem).  With a stride that is a multiple of the source pixel size (or
+any stride for 3-byte pixels) the output is, row by row and pixel by pixel, the stored translation
+of the source pixel at byte offset `r * stride + c * pixelSize`; output pixels are consecutive. -/
+theorem area_exact (be : Bool) (s : Strategy) (hs : s = .singleTC ∨ s = .singleCM ∨ s = .rgb)
+    (i o : PixelFormat) (cm : ColourMap) (mem : Nat → Nat) (stride w h : Nat)
+    (hstride : i.bpp / 8 = 3 ∨ (i.bpp / 8) ∣ stride) :
+    translateArea be s i o cm mem stride w h =
+      (List.range h).flatMap fun r => (List.range w).flatMap fun c =>
+        encode be (o.bpp / 8)
+          (lookup s i o cm (readPix be mem (r * stride + c * (i.bpp / 8)) (i.bpp / 8))) := by
+  have hstep : rowStep (i.bpp / 8) stride = stride := by
+    unfold rowStep
+    rcases hstride with h3 | hd
+    · simp [h3]
+    · split
+      · rfl
+      · exact Nat.div_mul_cancel hd
+  have : translateArea be s i o cm mem stride w h =
+      (translatePixels be s i o cm mem stride w h).flatMap (encode be (o.bpp / 8)) := by
+    rcases hs with rfl | rfl | rfl <;> rfl
+  rw [this, translatePixels, rowLoop_eq, hstep, List.flatMap_assoc]
+  apply flatMap_congr'
+  intro r _
+  rw [List.flatMap_map]
+  simp
+
+/-- the stride the code really uses when the given one is NOT a multiple of the pixel size: it is
+rounded down (`ipextra = bytesBetweenInputLines / sizeof(IN_T) - width`) -/
+theorem area_exact_any_stride (be : Bool) (s : Strategy)
+    (hs : s = .singleTC ∨ s = .singleCM ∨ s = .rgb)
+    (i o : PixelFormat) (cm : ColourMap) (mem : Nat → Nat) (stride w h : Nat) :
+    translateArea be s i o cm mem stride w h =
+      (List.range h).flatMap fun r => (List.range w).flatMap fun c =>
+        encode be (o.bpp / 8)
+          (lookup s i o cm
+            (readPix be mem (r * rowStep (i.bpp / 8) stride + c * (i.bpp / 8)) (i.bpp / 8))) := by
+  have : translateArea be s i o cm mem stride w h =
+      (translatePixels be s i o cm mem stride w h).flatMap (encode be (o.bpp / 8)) := by
+    rcases hs with rfl | rfl | rfl <;> rfl
+  rw [this, translatePixels, rowLoop_eq, List.flatMap_assoc]
+  apply flatMap_congr'
+  intro r _
+  rw [List.flatMap_map]
+  simp
+
+/-- exactly `w*h` output pixels are written -/
+theorem area_length (be : Bool) (s : Strategy) (hs : s = .singleTC ∨ s = .singleCM ∨ s = .rgb)
+    (i o : PixelFormat) (cm : ColourMap) (mem : Nat → Nat) (stride w h : Nat) :
+    (translateArea be s i o cm mem stride w h).length = h * w * (o.bpp / 8) := by
+  have : translateArea be s i o cm mem stride w h =
+      (translatePixels be s i o cm mem stride w h).flatMap (encode be (o.bpp / 8)) := by
+    rcases hs with rfl | rfl | rfl <;> rfl
+  rw [this, flatMap_encode_length, translatePixels, rowLoop_length]
+
+/-- nothing but the `w*h` source pixels is read: two memories that agree on the bytes of those
+pixels give the same output -/
+theorem area_reads_only_area (be : Bool) (s : Strategy)
+    (hs : s = .singleTC ∨ s = .singleCM ∨ s = .rgb)
+    (i o : PixelFormat) (cm : ColourMap) (mem mem' : Nat → Nat) (stride w h : Nat)
+    (hstride : i.bpp / 8 = 3 ∨ (i.bpp / 8) ∣ stride)
+    (hagree : ∀ r c j, r < h → c < w → j < i.bpp / 8 →
+      mem (r * stride + c * (i.bpp / 8) + j) = mem' (r * stride + c * (i.bpp / 8) + j)) :
+    translateArea be s i o cm mem stride w h = translateArea be s i o cm mem' stride w h := by
+  rw [area_exact be s hs i o cm mem stride w h hstride, area_exact be s hs i o cm mem' stride w h hstride]
+  apply flatMap_congr'
+  intro r hr
+  apply flatMap_congr'
+  intro c hc
+  have : readPix be mem (r * stride + c * (i.bpp / 8)) (i.bpp / 8) =
+      readPix be mem' (r * stride + c * (i.bpp / 8)) (i.bpp / 8) := by
+    unfold readPix
+    rw [memBytes_congr (fun j hj => hagree r c j (List.mem_range.mp hr) (List.mem_range.mp hc) hj)]
+  rw [this]
+
+/-- every byte read lies below `srcNeeded`, i.e. inside `(h−1)*stride + w*pixelSize` -/
+theorem area_reads_in_bounds (s : Strategy) (hs : s = .singleTC ∨ s = .singleCM ∨ s = .rgb)
+    (i o : PixelFormat) (stride w h r c j : Nat)
+    (hstride : i.bpp / 8 = 3 ∨ (i.bpp / 8) ∣ stride)
+    (hr : r < h) (hc : c < w) (hj : j < i.bpp / 8) :
+    r * stride + c * (i.bpp / 8) + j < srcNeeded s i o stride w h := by
+  have hstep : rowStep (i.bpp / 8) stride = stride := by
+    unfold rowStep
+    rcases hstride with h3 | hd
+    · simp [h3]
+    · split
+      · rfl
+      · exact Nat.div_mul_cancel hd
+  have e : srcNeeded s i o stride w h = (h - 1) * stride + w * (i.bpp / 8) := by
+    unfold srcNeeded
+    rw [if_neg (by omega), hstep]
+    rcases hs with rfl | rfl | rfl <;> rfl
+  rw [e]
+  have h1 : r * stride ≤ (h - 1) * stride := Nat.mul_le_mul_right _ (by omega)
+  have h2 : (c + 1) * (i.bpp / 8) ≤ w * (i.bpp / 8) := Nat.mul_le_mul_right _ hc
+  rw [Nat.add_mul, Nat.one_mul] at h2
+  omega
+
+/-- **the property in one statement**: translating a `w×h` area between well-formed formats
+writes `w*h` consecutive pixels of `bpp/8` bytes each, and the pixel for row `r`, column `c`, read
+in the client's byte order, is `specPixel` — the rounded-to-nearest rescaled components at the
+client's shifts, all other bits zero (`pixel_components`) — of the source pixel found at byte offset
+`r * stride + c * pixelSize`. -/
+theorem translated_area_rule {i o : PixelFormat} {ir ig ib kr kg kb : Nat} (be : Bool)
+    (wi : WF i ir ig ib) (wo : WF o kr kg kb) (s : Strategy)
+    (hs : (s = .singleTC ∧ (o.bpp = 8 ∨ o.bpp = 16 ∨ o.bpp = 24 ∨ o.bpp = 32)) ∨
+          (s = .rgb ∧ (o.bpp = 8 ∨ o.bpp = 16 ∨ o.bpp = 32)))
+    (hhost : i.bigEndian = be) (cm : ColourMap) (mem : Nat → Nat) (stride w h : Nat)
+    (hstride : i.bpp / 8 = 3 ∨ (i.bpp / 8) ∣ stride) :
+    ∃ px : Nat → Nat → List Nat,
+      translateArea be s i o cm mem stride w h =
+        ((List.range h).flatMap fun r => (List.range w).flatMap fun c => px r c) ∧
+      ∀ r c, (px r c).length = o.bpp / 8 ∧
+        decode o.bigEndian (px r c) =
+          specPixel i o (readPix be mem (r * stride + c * (i.bpp / 8)) (i.bpp / 8)) := by
+  refine ⟨fun r c => encode be (o.bpp / 8)
+      (lookup s i o cm (readPix be mem (r * stride + c * (i.bpp / 8)) (i.bpp / 8))), ?_, ?_⟩
+  · apply area_exact be s _ i o cm mem stride w h hstride
+    rcases hs with ⟨rfl, _⟩ | ⟨rfl, _⟩ <;> simp
+  · intro r c
+    exact ⟨encode_length _ _ _, (pixel_components be wi wo s hs hhost cm _).1⟩
+
+example : translateArea false .singleTC rgb565 xbgr8888be ⟨false, 0, fun _ => 0⟩
+    (fun k => [0xff, 0xff, 0xAA, 0xAA, 0x00, 0xf8].getD k 0) 4 1 2 =
+    [0, 255, 255, 255, 0, 0, 0, 255] := by decide
+
+/-! ## (5) colour-mapped servers and colour-map (BGR233) clients -/
+
+/-- colour-map scaling for a `2^k − 1` maximum is `c * 2^k / 2^width`, below `2^k` -/
+theorem cmScale_lt (cm : ColourMap) (c k : Nat) (hc : c < 2 ^ (if cm.is16 then 16 else 8)) :
+    cmScale cm c (2 ^ k - 1) < 2 ^ k := by
+  unfold cmScale
+  have hk := Nat.two_pow_pos k
+  rw [show 1 + (2 ^ k - 1) = 2 ^ k by omega, Nat.shiftRight_eq_div_pow]
+  apply Nat.div_lt_of_lt_mul
+  exact Nat.mul_lt_mul_of_lt_of_le hc (Nat.le_refl _) hk
+
+/-- … and for `k` not larger than the colour-map width it is the `k` MOST SIGNIFICANT BITS of the
+colour-map value -/
+theorem cmScale_msb (cm : ColourMap) (c k : Nat) (hk : k ≤ (if cm.is16 then 16 else 8)) :
+    cmScale cm c (2 ^ k - 1) = c >>> ((if cm.is16 then 16 else 8) - k) := by
+  unfold cmScale
+  have hp := Nat.two_pow_pos k
+  rw [show 1 + (2 ^ k - 1) = 2 ^ k by omega, Nat.shiftRight_eq_div_pow, Nat.shiftRight_eq_div_pow]
+  generalize (if cm.is16 then 16 else 8) = wd at hk
+  have : 2 ^ wd = 2 ^ (wd - k) * 2 ^ k := by rw [← Nat.pow_add]; congr 1; omega
+  rw [this, Nat.mul_div_mul_right _ _ hp]
+
+/-- **colour-mapped server**: with a colour map whose values fit its width, the table entry for
+colour index `p`, stored and read back in the client's byte order, is the three scaled colour-map
+components of `p` (zero beyond `count`) at the client's shifts and nothing else. -/
+theorem cm_pixel_components {i o : PixelFormat} {kr kg kb : Nat} (be : Bool)
+    (wo : WF o kr kg kb) (hbpp : o.bpp = 8 ∨ o.bpp = 16 ∨ o.bpp = 24 ∨ o.bpp = 32)
+    (hhost : i.bigEndian = be) (cm : ColourMap)
+    (hcm : ∀ k, cm.data k < 2 ^ (if cm.is16 then 16 else 8)) (p : Nat) :
+    let v := decode o.bigEndian (encode be (o.bpp / 8) (lookup .singleCM i o cm p))
+    v = place o (cmScale cm (cmComp cm p 0) o.redMax) (cmScale cm (cmComp cm p 1) o.greenMax)
+          (cmScale cm (cmComp cm p 2) o.blueMax) ∧
+    comp v o.redShift o.redMax = cmScale cm (cmComp cm p 0) o.redMax ∧
+    comp v o.greenShift o.greenMax = cmScale cm (cmComp cm p 1) o.greenMax ∧
+    comp v o.blueShift o.blueMax = cmScale cm (cmComp cm p 2) o.blueMax ∧
+    (∀ j, v.testBit j = true →
+      (o.redShift ≤ j ∧ j < o.redShift + kr) ∨ (o.greenShift ≤ j ∧ j < o.greenShift + kg) ∨
+      (o.blueShift ≤ j ∧ j < o.blueShift + kb)) := by
+  intro v
+  have hcomp : ∀ j, cmComp cm p j < 2 ^ (if cm.is16 then 16 else 8) := by
+    intro j; unfold cmComp; split
+    · exact hcm _
+    · exact Nat.two_pow_pos _
+  have hr : cmScale cm (cmComp cm p 0) o.redMax < 2 ^ kr := by
+    rw [wo.rmax]; exact cmScale_lt cm _ _ (hcomp 0)
+  have hg : cmScale cm (cmComp cm p 1) o.greenMax < 2 ^ kg := by
+    rw [wo.gmax]; exact cmScale_lt cm _ _ (hcomp 1)
+  have hb : cmScale cm (cmComp cm p 2) o.blueMax < 2 ^ kb := by
+    rw [wo.bmax]; exact cmScale_lt cm _ _ (hcomp 2)
+  have hlt := place_lt wo hr hg hb
+  have hv : v = place o (cmScale cm (cmComp cm p 0) o.redMax)
+      (cmScale cm (cmComp cm p 1) o.greenMax) (cmScale cm (cmComp cm p 2) o.blueMax) := by
+    have hl : lookup .singleCM i o cm p =
+        if o.bigEndian != be then swapOut o.bpp (place o (cmScale cm (cmComp cm p 0) o.redMax)
+          (cmScale cm (cmComp cm p 1) o.greenMax) (cmScale cm (cmComp cm p 2) o.blueMax))
+        else place o (cmScale cm (cmComp cm p 0) o.redMax)
+          (cmScale cm (cmComp cm p 1) o.greenMax) (cmScale cm (cmComp cm p 2) o.blueMax) := by
+      have h' := hlt
+      unfold place at h'
+      rw [← hhost]
+      simp only [lookup, singleEntryCM, place, Nat.mod_eq_of_lt h']
+    show decode o.bigEndian (encode be (o.bpp / 8) (lookup .singleCM i o cm p)) = _
+    rw [hl]
+    rcases hbpp with e | e | e | e <;> rw [e] at hlt ⊢
+    · exact decode_encode_swap be o.bigEndian 1 (by omega) _ hlt
+    · exact decode_encode_swap be o.bigEndian 2 (by omega) _ hlt
+    · exact decode_encode_swap be o.bigEndian 3 (by omega) _ hlt
+    · exact decode_encode_swap be o.bigEndian 4 (by omega) _ hlt
+  rw [hv]
+  exact ⟨rfl, place_red wo hr hg hb, place_green wo hr hg hb, place_blue wo hr hg hb,
+    fun j hj => place_bits hr hg hb hj⟩
+
+/-- **colour-map client**: an 8-bit client without true colour is accepted, is sent a colour map,
+and is from then on treated as the true-colour format `BGR233Format` (T0 constant) -/
+theorem colourmap_client_gets_bgr233 (econ : Bool) (srv cli : PixelFormat)
+    (hs : validBpp srv.bpp = true) (htc : cli.trueColour = false) (h8 : cli.bpp = 8) :
+    (setTranslate econ srv cli).fmt = bgr233Format ∧ (setTranslate econ srv cli).sentCMap = true ∧
+    (setTranslate econ srv cli).strat ≠ .reject := by
+  have hv : validBpp 8 = true := by decide
+  have hc : channelCheck cli = true := by simp [channelCheck, htc]
+  simp only [setTranslate, hs, htc, h8, hv, hc]
+  refine ⟨?_, ?_, ?_⟩ <;> (repeat' split) <;> simp_all
+
+example : (setTranslate false rgb565 ⟨8, 8, false, false, 0, 0, 0, 0, 0, 0⟩).fmt = bgr233Format := by
+  decide
+example : cmScale ⟨true, 1, fun _ => 0xffff⟩ 0xffff 31 = 31 ∧
+    cmScale ⟨false, 1, fun _ => 0x80⟩ 0x80 7 = 4 := by decide
+
+/-- the 16-bit expansion of component `c` with maximum `m`, as the code computes it -/
+def expand16 (c m : Nat) : Nat := c * 65535 / m
+
+set_option maxRecDepth 100000 in
+/-- **BGR233 colour map**: the SetColourMapEntries message is the 6-byte header (type, pad,
+first colour 0, 256 colours) followed, for every pixel value `p = 0 … 255` in order, by the
+big-endian 16-bit expansions of the red, green and blue components of `p` under `BGR233Format` —
+so the client displays pixel `p` as exactly the colour the translation tables meant. -/
+theorem bgr233_message_rule :
+    bgr233Message =
+      [Gen.C10.msgSetColourMapEntries, 0, 0, 0, 1, 0] ++
+      (List.range 256).flatMap fun p =>
+        be16 (expand16 (comp p bgr233Format.redShift bgr233Format.redMax) bgr233Format.redMax) ++
+        be16 (expand16 (comp p bgr233Format.greenShift bgr233Format.greenMax) bgr233Format.greenMax) ++
+        be16 (expand16 (comp p bgr233Format.blueShift bgr233Format.blueMax) bgr233Format.blueMax) := by
+  decide
+
+/-- `BGR233Format` is a well-formed format with 3, 3 and 2 bits (tie to the T0 constants) -/
+theorem bgr233_wf : WF bgr233Format 3 3 2 := by constructor <;> decide
+
+/-- `rfbEndianTest` (used by the 24-bit code and `Swap16IfLE`) agrees with the machine -/
+theorem endian_test_consistent : Gen.C10.rfbEndianTestLE = Gen.C10.hostLittleEndian := by decide
+
+/-! ## (6) choice logic, table bounds, adequacy of the arithmetic -/
+
+/-- exactly which requests are refused (the client is closed) -/
+theorem reject_iff (econ : Bool) (srv cli : PixelFormat) :
+    (setTranslate econ srv cli).strat = .reject ↔
+      (validBpp srv.bpp = false ∨ validBpp cli.bpp = false ∨
+       (cli.trueColour = false ∧ cli.bpp ≠ 8) ∨ channelCheck cli = false) := by
+  unfold setTranslate
+  cases hs : validBpp srv.bpp <;> cases hc : validBpp cli.bpp <;> cases ht : cli.trueColour <;>
+    cases hf : channelCheck cli <;>
+    by_cases h8 : cli.bpp = 8 <;> simp [h8] <;> (repeat' split) <;> simp_all
+
+/-- which table strategy is chosen for a true-colour client whose format differs from the
+server's: the single table for an 8 bpp server and for a 16 bpp server that is colour-mapped or not
+"economic"; three tables otherwise -/
+theorem strategy_choice (econ : Bool) (srv cli : PixelFormat)
+    (hs : validBpp srv.bpp = true) (hc : validBpp cli.bpp = true) (htc : cli.trueColour = true)
+    (hfit : channelCheck cli = true) (hne : pfEq cli srv = false) :
+    (setTranslate econ srv cli).strat =
+      if srv.bpp < 16 ∨ ((srv.trueColour = false ∨ econ = false) ∧ srv.bpp = 16)
+      then (if srv.trueColour then .singleTC else .singleCM) else .rgb := by
+  simp only [setTranslate, hs, hc, htc, hfit]
+  cases srv.trueColour <;> cases econ <;> simp [hne] <;> split <;> rfl
+
+/-- a component never exceeds its mask, so every index into a channel table of `max+1` entries
+is in range; the three channel tables occupy `rmax+gmax+bmax+3` entries = `tableBytes` -/
+theorem rgb_index_in_table (p shift max : Nat) : comp p shift max < max + 1 := by
+  unfold comp
+  exact Nat.lt_succ_of_le Nat.and_le_right
+
+theorem rgb_table_size (i o : PixelFormat) (h : o.bpp ≠ 24) :
+    tableBytes .rgb i o = ((i.redMax + 1) + (i.greenMax + 1) + (i.blueMax + 1)) * (o.bpp / 8) := by
+  simp only [tableBytes, h, if_false]
+  congr 1; omega
+
+/-- a source pixel read from `bpp/8` bytes indexes inside the single table of `2^bpp` entries -/
+theorem single_index_in_table (be : Bool) (mem : Nat → Nat) (hm : ∀ k, mem k < 256) (off : Nat)
+    (i : PixelFormat) (h : i.bpp = 8 ∨ i.bpp = 16) :
+    readPix be mem off (i.bpp / 8) < 2 ^ i.bpp := by
+  rcases h with e | e <;> rw [e] <;> cases be <;>
+    simp [readPix, decode, memBytes, List.range, List.range.loop, valLE]
+  · exact hm _
+  · exact hm _
+  · have := hm off; have := hm (off + 1); omega
+  · have := hm off; have := hm (off + 1); omega
+
+/-- single table: the C `int` expression `inRed * out->redMax + in->redMax / 2` cannot overflow for
+a well-formed server format of at most 16 bits per pixel -/
+theorem single_no_int_overflow {i : PixelFormat} {ir ig ib : Nat} (wi : WF i ir ig ib)
+    (hb : i.bpp ≤ 16) (c outMax : Nat) (hc : c ≤ i.redMax) (ho : outMax ≤ 65535) :
+    c * outMax + i.redMax / 2 < 2 ^ 31 := by
+  have hk : ir ≤ 14 := by
+    have := wi.rg; have := wi.rb; have := wi.gb
+    have := wi.rfit; have := wi.gfit; have := wi.bfit
+    have := wi.kg_pos; have := wi.kb_pos
+    omega
+  have h1 : 2 ^ ir ≤ 2 ^ 14 := Nat.pow_le_pow_right (by decide) hk
+  have h2 := wi.rmax
+  have h3 : c * outMax ≤ 16383 * 65535 := Nat.mul_le_mul (by omega) ho
+  omega
+
+/-- three tables (fixed code: unsigned arithmetic): `i * outMax + inMax / 2` fits 32 bits for all
+16-bit maxima -/
+theorem rgb_fits_uint32 (c inMax outMax : Nat) (hc : c ≤ inMax) (hi : inMax ≤ 65535)
+    (ho : outMax ≤ 65535) : c * outMax + inMax / 2 < 2 ^ 32 := by
+  have : c * outMax ≤ 65535 * 65535 := Nat.mul_le_mul (by omega) ho
+  omega
+
 end VncModel.Props.C10
